@@ -64,6 +64,7 @@ type c33dep struct {
 }
 
 type c33case struct {
+	ov     *c33overlap // entry 3
 	kind   string
 	entry  int
 	has    c33resp
@@ -107,6 +108,7 @@ type c33rec struct {
 	hist   []string
 	nrepl  int
 	nets   int // requests the environment deliberately left unanswered
+	ups    []string // entry 2/3: per request at a real origin "(status, accepted upload during it)"
 }
 
 func (r *c33rec) reset(c *c33case, idx int, tag, remote string) {
@@ -119,6 +121,7 @@ func (r *c33rec) reset(c *c33case, idx int, tag, remote string) {
 	r.hist = nil
 	r.nrepl = 0
 	r.nets = 0
+	r.ups = nil
 }
 
 func (r *c33rec) add(kind, s string) {
@@ -255,7 +258,22 @@ type c33http struct {
 	cluSrv  *httptest.Server
 	origins []*httptest.Server
 	real    []*c33blobsrv // entry 2: the real blobserver behind each origin listener
+	peer    *c33http      // entry 3: a second executor's environment sharing these origins
+	shared  bool          // the origins belong to another environment
 	exec    *tagreplication.Executor
+}
+
+// recFor: which execution does a request at a (shared) origin belong to
+func (e *c33http) recFor(ns string) *c33rec {
+	if e.peer != nil {
+		e.peer.rec.mu.Lock()
+		t := e.peer.rec.tag
+		e.peer.rec.mu.Unlock()
+		if ns == t {
+			return e.peer.rec
+		}
+	}
+	return e.rec
 }
 
 func c33addr(s *httptest.Server) string { return strings.TrimPrefix(s.URL, "http://") }
@@ -290,8 +308,16 @@ func (e *c33http) answer(w http.ResponseWriter, resp c33resp, body string) {
 
 const c33maxOrigins = 3
 
-func newC33http(real []*c33blobsrv) *c33http {
+func newC33http(real []*c33blobsrv) *c33http { return newC33httpShared(real, nil) }
+
+// newC33httpShared: with from != nil the new environment (own build-index, own locations server,
+// own executor) uses the origins of from
+func newC33httpShared(real []*c33blobsrv, from *c33http) *c33http {
 	e := &c33http{rec: &c33rec{}, real: real}
+	if from != nil {
+		e.origins, e.shared = from.origins, true
+		from.peer = e
+	}
 	e.tagSrv = c33serve(func(w http.ResponseWriter, q *http.Request) {
 		p := q.URL.EscapedPath()
 		switch {
@@ -322,7 +348,7 @@ func newC33http(real []*c33blobsrv) *c33http {
 			w.WriteHeader(500)
 		}
 	})
-	for i := 0; i < c33maxOrigins; i++ {
+	for i := 0; i < c33maxOrigins && from == nil; i++ {
 		i := i
 		e.origins = append(e.origins, c33serve(func(w http.ResponseWriter, q *http.Request) {
 			// POST /namespace/{namespace}/blobs/{digest}/remote/{remote}
@@ -349,13 +375,14 @@ func newC33http(real []*c33blobsrv) *c33http {
 				e.answer(w, e.rec.repl(i, ns, d, remote), "")
 				return
 			}
-			resp, record := e.rec.replBegin(i, ns, d, remote)
+			rec := e.recFor(ns)
+			resp, record := rec.replBegin(i, ns, d, remote)
 			if resp.net || resp.h == nil {
 				record(c33resp{net: true})
 				e.answer(w, c33resp{net: true}, "")
 				return
 			}
-			e.real[i].serve(w, q, e.rec, d, resp.h, record)
+			e.real[i].serve(w, q, rec, d, resp.h, record)
 		}))
 	}
 	e.cluSrv = c33serve(func(w http.ResponseWriter, q *http.Request) {
@@ -416,6 +443,9 @@ func newC33http(real []*c33blobsrv) *c33http {
 func (e *c33http) close() {
 	e.tagSrv.Close()
 	e.cluSrv.Close()
+	if e.shared {
+		return
+	}
 	for _, o := range e.origins {
 		o.Close()
 	}
@@ -455,7 +485,7 @@ func (e *c33http) run(c *c33case, idx int) c33out {
 	lost := c33tr.count(e.hosts()) - before
 	e.rec.mu.Lock()
 	defer e.rec.mu.Unlock()
-	return c33out{ok: err == nil, evs: e.rec.evs, hist: e.rec.hist, nrepl: e.rec.nrepl, incon: lost != e.rec.nets}
+	return c33out{ok: err == nil, evs: e.rec.evs, hist: e.rec.hist, nrepl: e.rec.nrepl, ups: e.rec.ups, incon: lost != e.rec.nets}
 }
 
 // ---- entry 1: fakes around the real Poll
@@ -583,13 +613,13 @@ func (c *c33case) coqEnv() string {
 		for _, o := range de.origins {
 			var sc []string
 			for _, r := range o.script {
-				if c.entry == 2 {
+				if c.entry >= 2 {
 					sc = append(sc, r.h.coq())
 				} else {
 					sc = append(sc, r.coq())
 				}
 			}
-			if c.entry == 2 {
+			if c.entry >= 2 {
 				os = append(os, fmt.Sprintf("O (served %s) %d", hlib.List(sc), o.budget))
 			} else {
 				os = append(os, fmt.Sprintf("O %s %d", hlib.List(sc), o.budget))
@@ -605,6 +635,9 @@ func (c *c33case) coqEnv() string {
 }
 
 type c33out struct {
+	ups   []string
+	other *c33out // entry 3: the second execution
+	note  string
 	ok    bool
 	evs   []string
 	hist  []string
@@ -957,6 +990,12 @@ func c33(ctx *hlib.Ctx) {
 					go func() {
 						if c.entry == 1 {
 							done <- c33runPoll(c, i)
+						} else if c.entry == 3 {
+							a := get(2)
+							if a.peer == nil {
+								newC33httpShared(a.real, a)
+							}
+							done <- c33runOverlap(a, c, i)
 						} else {
 							done <- get(c.entry).run(c, i)
 						}
@@ -970,8 +1009,12 @@ func c33(ctx *hlib.Ctx) {
 					if !o.incon {
 						break
 					}
-					if env := envs[c.entry]; env != nil {
-						delete(envs, c.entry)
+					ek := c.entry
+					if ek == 3 {
+						ek = 2
+					}
+					if env := envs[ek]; env != nil {
+						delete(envs, ek)
 						go env.close() // abandoned; closing waits for its stragglers
 					}
 					time.Sleep(300 * time.Millisecond)
@@ -985,23 +1028,36 @@ func c33(ctx *hlib.Ctx) {
 	}
 	wg.Wait()
 
-	for i := range cases {
-		c := &cases[i]
-		o := outs[i]
+	emit := func(c *c33case, o c33out, entry string) {
 		res := "Err"
 		if o.ok {
 			res = "Ok"
 		}
 		env := c.coqEnv()
 		ctx.Emit(hlib.Case{
-			Coq:   fmt.Sprintf("mkcase %s %s %s", env, hlib.List(o.evs), res),
+			Coq:   fmt.Sprintf("mkcase %s %s %s %s", env, hlib.List(o.evs), res, hlib.List(o.ups)),
 			NT:    o.nrepl > 0,
 			Kind:  c.kind,
-			Key:   fmt.Sprintf("%d %s", c.entry, env),
+			Key:   fmt.Sprintf("%s %s", entry, env),
 			Hist:  o.hist,
 			Incon: o.incon,
-			Sample: map[string]interface{}{"entry": []string{"http", "poll", "server"}[c.entry], "env": env,
-				"trace": o.evs, "result": res},
+			Sample: map[string]interface{}{"entry": entry, "env": env, "trace": o.evs, "result": res,
+				"uploads": o.ups, "note": o.note},
 		})
+	}
+	for i := range cases {
+		c := &cases[i]
+		o := outs[i]
+		if c.entry == 3 {
+			ob := c33out{incon: true}
+			if o.other != nil {
+				ob = *o.other
+			}
+			ob.incon = ob.incon || o.incon
+			emit(c, o, "overlap-first")
+			emit(c.ov.b, ob, "overlap-second")
+			continue
+		}
+		emit(c, o, []string{"http", "poll", "server"}[c.entry])
 	}
 }
